@@ -24,3 +24,10 @@ Theorem C12_is_empty : forall (Vr : Type) (E : EqDec Vr) (G : cfg Vr),
   is_empty_cfg G = true <-> forall w, ~ LangG G w.
 Proof. exact (@is_empty_cfg_spec). Qed.
 Print Assumptions C12_is_empty.
+
+(* get_words(n): each generated word of length at most n exactly once, nothing else (modelled by its specification) *)
+From PFL Require Import Model.CfgWords Proofs.CfgWords.
+Theorem C12_get_words : forall (Vr : Type) (E : EqDec Vr) (G : cfg Vr) (n : nat),
+  NoDup (get_words G n) /\ forall w, In w (get_words G n) <-> (LangG G w /\ length w <= n).
+Proof. exact (@get_words_spec). Qed.
+Print Assumptions C12_get_words.
